@@ -138,13 +138,7 @@ def check_config(ctx, F, tag):
         errs = [bi for bi, si, st in b.stmts() if st["s"] == "assign" and st["lhs"]["l"] == 0 and st["rv"]["r"] == "agg" and st["rv"].get("vname") == "Err"]
         ctx.ob("C09.R2.width-predicate", fn + tag, loc(b.raw["span"]), ok and bool(errs), "guard-dominance",
                "construction dominated by width != 0 && width <= WORD_BITS with the checked value stored: %s; refusing edge returns Err: %s" % (ok, bool(errs)))
-    wl = F.body("<wavelet_matrix::wm_core::WMCore as serialize::Serialize>::load")
-    aggs = [bi for bi, si, st in wl.stmts() if st["s"] == "assign" and st["rv"]["r"] == "agg" and st["rv"].get("def") == "wavelet_matrix::wm_core::WMCore"]
-    ok = bool(aggs)
-    for bi in aggs:
-        fs = facts_at(wl, bi)
-        ok = ok and any(f[0] == "cmp" and f[1] == "Ne" and m(Const(0), f[3]) for f in fs) and any(f[0] == "cmp" and f[1] == "Le" and m(Const(64, "bits::WORD_BITS"), f[3]) for f in fs)
-    ctx.ob("C09.R2.width-predicate", wl.name + tag, loc(wl.raw["span"]), ok, "guard-dominance", "WMCore::load refuses width == 0 || width > WORD_BITS before building: %s" % ok)
+    check_wm_load_width(ctx, F, tag)
 
     # ---------------- R3 informational: sibling clamps
     for tr, methods in TRAIT_METHODS.items():
@@ -162,3 +156,15 @@ def check_config(ctx, F, tag):
                             mins = [tstr(x)[:40] for _, t in b.calls() for x in [b.term_of_call(t)] if x[1].endswith("cmp::min")]
                             row.append("%s: %s%s" % (im["self_ty"]["def"].split("::")[-1], sorted(guards)[:2], (" min:" + str(mins)) if mins else ""))
             ctx.note("sibling clamps %s::%s%s -- %s" % (tr.split("::")[-1], meth, tag, " | ".join(row)))
+
+
+def check_wm_load_width(ctx, F, tag, rule="C09.R2.width-predicate"):
+    """WMCore::load accepts exactly the widths 1..=64 that construction can produce."""
+    wl = F.body("<wavelet_matrix::wm_core::WMCore as serialize::Serialize>::load")
+    aggs = [bi for bi, si, st in wl.stmts() if st["s"] == "assign" and st["rv"]["r"] == "agg" and st["rv"].get("def") == "wavelet_matrix::wm_core::WMCore"]
+    ok = bool(aggs)
+    for bi in aggs:
+        fs = facts_at(wl, bi)
+        ok = ok and any(f[0] == "cmp" and f[1] == "Ne" and m(Const(0), f[3]) for f in fs) and any(f[0] == "cmp" and f[1] == "Le" and m(Const(64, "bits::WORD_BITS"), f[3]) for f in fs)
+    ctx.ob(rule, wl.name + tag, loc(wl.raw["span"]), ok, "guard-dominance", "WMCore::load refuses width == 0 || width > WORD_BITS before building: %s" % ok)
+
